@@ -151,9 +151,16 @@ class Categorize(Factory, Container):
         """Attempt to get key ``x``, returning an alternative if it does not exist."""
         return self.bins.get(x, default)
 
+    def _keepContent(self, out):
+        # without a value template (ed() or JSON) the type and name of the bins are only known from here
+        if self.value is None:
+            out.contentType = self.contentType
+            out.contentName = getattr(self, "contentName", None)
+        return out
+
     @inheritdoc(Container)
     def zero(self):
-        return Categorize(self.quantity, self.value)
+        return self._keepContent(Categorize(self.quantity, self.value))
 
     @inheritdoc(Container)
     def __add__(self, other):
@@ -168,7 +175,7 @@ class Categorize(Factory, Container):
                     out.bins[k] = self.bins[k].copy()
                 else:
                     out.bins[k] = other.bins[k].copy()
-            return out.specialize()
+            return self._keepContent(out).specialize()
 
         raise ContainerException(f"cannot add {self.name} and {other.name}")
 
@@ -301,7 +308,7 @@ class Categorize(Factory, Container):
             else:
                 binsName = None
         else:
-            binsName = None
+            binsName = getattr(self, "contentName", None)
 
         if len(self.bins) > 0:
             bins_type = list(self.bins.values())[0].name
@@ -359,6 +366,7 @@ class Categorize(Factory, Container):
                 raise JsonFormatException(json, "Categorize.bins")
 
             out = Categorize.ed(entries, contentType, bins)
+            out.contentName = dataName
             out.quantity.name = nameFromParent if name is None else name
             return out.specialize()
 
